@@ -59,11 +59,12 @@ Proof. intros H. cbn. now rewrite H. Qed.
 
 Lemma cstep_length_mono w o : length w <= length (fst (cstep w o)).
 Proof.
-  destruct o as [|c ps|c|c i hs t]; cbn.
+  destruct o as [|c ps|c|c i hs t|c]; cbn.
   - rewrite app_length. cbn. lia.
   - destruct ps; cbn; [lia|]. rewrite set_nth_length. lia.
   - destruct (nth_error w c); cbn; [rewrite app_length; cbn|]; lia.
   - destruct (nth_error w c); cbn; lia.
+  - lia.
 Qed.
 
 (* frame: nothing but SetRedirectPolicy on c itself changes what c holds - in particular not
@@ -72,11 +73,12 @@ Lemma cstep_frame w o c :
   c < length w -> (forall ps, o <> OSet c ps) ->
   nth_error (fst (cstep w o)) c = nth_error w c.
 Proof.
-  intros Hc Ho. destruct o as [|d ps|d|d i hs t]; cbn.
+  intros Hc Ho. destruct o as [|d ps|d|d i hs t|d]; cbn.
   - now rewrite nth_error_app1.
   - destruct ps as [|p ps]; [reflexivity|]. cbn [fst]. apply set_nth_other. intros ->. now apply (Ho (p :: ps)).
   - destruct (nth_error w d); cbn [fst]; [now rewrite nth_error_app1|reflexivity].
   - destruct (nth_error w d); reflexivity.
+  - reflexivity.
 Qed.
 
 (* a request leaves every client's configuration alone *)
@@ -92,7 +94,7 @@ Lemma client_independence_gen c : forall ops w1 w2,
 Proof.
   induction ops as [|o r IH]; intros w1 w2 Hl Hc He; [reflexivity|].
   cbn [erase_foreign map]. fold (erase_foreign c r).
-  destruct o as [|d ps|d|d i hs t]; cbn [erase1].
+  destruct o as [|d ps|d|d i hs t|d]; cbn [erase1].
   - cbn [crun_of cstep]. apply IH.
     + rewrite !app_length. cbn [length]. lia.
     + rewrite app_length. cbn [length]. lia.
@@ -125,6 +127,7 @@ Proof.
       * rewrite Nat.eqb_refl. f_equal. apply IH; congruence.
       * apply IH; congruence.
     + cbn [crun_of cstep]. destruct (nth_error w1 d); [rewrite Ed|]; now apply IH.
+  - cbn [crun_of cstep]. now apply IH.
 Qed.
 
 Lemma client_independence c w ops :
@@ -378,4 +381,30 @@ Proof.
   intros s' Hs Hne. vm_compute in Hs.
   destruct Hs as [<-|[<-|[<-|[]]]]; try (exfalso; apply Hne; reflexivity).
   split; [left; reflexivity|right; left; reflexivity].
+Qed.
+
+(* ---------- the other configuration methods ---------- *)
+
+Lemma cstep_other w c : cstep w (OOther c) = (w, None).
+Proof. reflexivity. Qed.
+
+(* whatever other configuration calls are made, in whatever order with SetRedirectPolicy, the
+   outcomes of all requests are those of the history without them *)
+Definition drop_other (ops : list cop) : list cop :=
+  filter (fun o => match o with OOther _ => false | _ => true end) ops.
+
+Lemma crun_ignores_other : forall ops w, crun w (drop_other ops) = crun w ops.
+Proof.
+  induction ops as [|o r IH]; intros w; [reflexivity|].
+  destruct o; cbn [drop_other filter]; fold (drop_other r);
+    try (cbn [crun]; destruct (cstep w _) as [w' oc]; now rewrite IH).
+  cbn [crun cstep]. rewrite IH. now destruct (crun w r).
+Qed.
+
+(* the e-m1 design (the http.Client rebuilt without CheckRedirect) is a different machine *)
+Lemma rebuild_design_refuted :
+  exists ops, crun_rebuild [] ops <> snd (crun [] ops).
+Proof.
+  exists [ONew; OSet 0 [PNo]; OOther 0; ODo 0 (bs "a.test") [(bs "X-Api-Key", 1)] [bs "b.test"]].
+  vm_compute. intros H. discriminate H.
 Qed.
